@@ -39,6 +39,7 @@ type loadOpts struct {
 	ProjectName            string   `json:"project_name,omitempty"`        // "" = "proj"
 	NameNotImperative      bool     `json:"name_not_imperative,omitempty"` // the name is only the caller's fallback
 	KnownExt               string   `json:"known_extension,omitempty"`     // "" | value | pointer: prototype registered for `x-known`
+	NilInterpolate         bool     `json:"nil_interpolate,omitempty"`     // Options.Interpolate = nil (the loader guards for it)
 }
 
 // knownExt is the Go type a caller registers for the `x-known` extension; the prototypes are shared by all loads.
@@ -81,6 +82,9 @@ func (o loadOpts) apply(lo *loader.Options) {
 		lo.KnownExtensions = map[string]any{"x-known": knownExtValue}
 	case "pointer":
 		lo.KnownExtensions = map[string]any{"x-known": knownExtPointer}
+	}
+	if o.NilInterpolate {
+		lo.Interpolate = nil
 	}
 	lo.Profiles = o.Profiles
 	name := o.ProjectName
